@@ -502,6 +502,25 @@ func makePlan(sub uint64, cfgIdx int, tier string) *Plan {
 	if tier == "thorough" {
 		nOps = r.Range(40, 70)
 	}
+	// the items of one batch are evaluated concurrently: keep at most one item per cache partition
+	// (same user, same contextual tuples), otherwise which of two items sees the other's sub-problem
+	// entries depends on goroutine order
+	solo := func(items []int, n int) []int {
+		var out []int
+		seen := map[string]bool{}
+		for _, i := range items {
+			pt := p.probes[i].partition()
+			if p.probes[i].Bad {
+				pt = fmt.Sprintf("bad%d", i)
+			}
+			if seen[pt] || len(out) >= n {
+				continue
+			}
+			seen[pt] = true
+			out = append(out, i)
+		}
+		return out
+	}
 	last := -1 // the probe of the previous single-probe request
 	rcps := recipes(p.Tmpl)
 	loCons := func() int { return r.Intn(2) }
@@ -554,11 +573,11 @@ func makePlan(sub uint64, cfgIdx int, tier string) *Plan {
 			case 0:
 				items := []int{pi}
 				for _, j := range checks {
-					if j != pi && len(items) < 3 && r.Chance(1, 2) {
+					if j != pi && r.Chance(1, 2) {
 						items = append(items, j)
 					}
 				}
-				p.ops = append(p.ops, Op{Kind: "batch", Probes: items, Cons: cons})
+				p.ops = append(p.ops, Op{Kind: "batch", Probes: solo(items, 3), Cons: cons})
 			default:
 				p.ops = append(p.ops, Op{Kind: "check", Probes: []int{pi}, Cons: cons})
 			}
@@ -688,10 +707,7 @@ func makePlan(sub uint64, cfgIdx int, tier string) *Plan {
 				n := r.Range(2, 4)
 				perm := append([]int{}, checks...)
 				rec.Shuffle(r, perm)
-				if n > len(perm) {
-					n = len(perm)
-				}
-				p.ops = append(p.ops, Op{Kind: "batch", Probes: perm[:n], Cons: cons})
+				p.ops = append(p.ops, Op{Kind: "batch", Probes: solo(perm, n), Cons: cons})
 			case y < 84:
 				i := los[r.Intn(len(los))]
 				last = i
